@@ -106,16 +106,16 @@ pub fn arg_classes(t: &NTree, model: &Model, op: &Op) -> String {
                 CopyMode::Dirs(_) => "mode=dirs",
                 CopyMode::Files(_) => "mode=files",
             },
-            if *f { ",follow" } else { "" }
+            if *f { "+follow" } else { "" }
         )),
         Op::ChmodB(_, o) => cls.push(format!(
             "{}{}{}{}{}",
-            if o.all.is_some() { "all," } else { "" },
-            if o.dirs.is_some() { "dirs," } else { "" },
-            if o.files.is_some() { "files," } else { "" },
-            if o.sym.is_some() { "sym," } else { "" },
+            if o.all.is_some() { "all+" } else { "" },
+            if o.dirs.is_some() { "dirs+" } else { "" },
+            if o.files.is_some() { "files+" } else { "" },
+            if o.sym.is_some() { "sym+" } else { "" },
             match (o.recurse, o.follow) {
-                (Some(false), true) => "no-recurse,follow",
+                (Some(false), true) => "no-recurse+follow",
                 (Some(false), false) => "no-recurse",
                 (_, true) => "follow",
                 _ => "",
@@ -123,10 +123,10 @@ pub fn arg_classes(t: &NTree, model: &Model, op: &Op) -> String {
         )),
         Op::ChownB(_, o) => cls.push(format!(
             "{}{}{}",
-            if o.uid.is_some() { "uid," } else { "" },
-            if o.gid.is_some() { "gid," } else { "" },
+            if o.uid.is_some() { "uid+" } else { "" },
+            if o.gid.is_some() { "gid+" } else { "" },
             match (o.recurse, o.follow) {
-                (Some(false), true) => "no-recurse,follow",
+                (Some(false), true) => "no-recurse+follow",
                 (Some(false), false) => "no-recurse",
                 (_, true) => "follow",
                 _ => "",
@@ -192,6 +192,30 @@ pub fn normalize_rel(res: Res, op: &Op, model: &Model) -> Res {
             Res::Items(v)
         },
         r => r,
+    }
+}
+
+/// how a post state differs from the expected one, entry by entry
+pub fn change_categories(pre: &NTree, want: &NTree, got: &NTree) -> String {
+    let mut cats = std::collections::BTreeSet::new();
+    for k in want.nodes.keys().chain(got.nodes.keys()) {
+        let (p, w, g) = (pre.nodes.get(k), want.nodes.get(k), got.nodes.get(k));
+        if w == g {
+            continue;
+        }
+        let is_link = matches!(p.map(|n| &n.kind), Some(NKind::Link { .. }));
+        if g == p {
+            cats.insert(if is_link { "expected-change-of-link-missing" } else { "expected-change-missing" });
+        } else if w == p {
+            cats.insert(if is_link { "unexpected-change-of-link" } else { "unexpected-change" });
+        } else {
+            cats.insert("wrong-value");
+        }
+    }
+    if cats.is_empty() {
+        "same".into()
+    } else {
+        cats.into_iter().collect::<Vec<_>>().join("+")
     }
 }
 
@@ -273,7 +297,12 @@ impl LockStep {
                                 let tree_rel = if real == pre { "tree-unchanged" } else { "tree-changed" };
                                 let observed = if res_ok {
                                     let want_unchanged = outs.iter().filter(|o| o.res.matches(&res)).all(|o| o.post == pre);
-                                    format!("{}+{}", res.class(), if want_unchanged { "tree-changed" } else { "tree-differs-from-reference" })
+                                    if matches!(op, Op::Chmod(..) | Op::ChmodB(..) | Op::Chown(..) | Op::ChownB(..)) {
+                                        let o0 = outs.iter().find(|o| o.res.matches(&res)).unwrap();
+                                        format!("{}+{}", res.class(), change_categories(&pre, &o0.post, &real))
+                                    } else {
+                                        format!("{}+{}", res.class(), if want_unchanged { "tree-changed" } else { "tree-differs-from-reference" })
+                                    }
                                 } else {
                                     format!("{}+{}", res.class(), tree_rel)
                                 };
